@@ -2855,6 +2855,7 @@ class Array:
             if len(new_axes) != len(combine_legs):
                 raise ValueError('wrong len of `new_axes`')
             new_rank = len(combine_legs) + len(non_combined_legs)
+            new_axes = list(new_axes)  # copy: accept tuples and don't modify the argument
             for i, a in enumerate(new_axes):
                 if a < 0:
                     new_axes[i] = a + new_rank
